@@ -413,9 +413,8 @@ def run(ctx):
         ctx.dist['corpus-files'] += 1
         check_message(ctx, {'file': os.path.basename(f)}, toks, b, os.path.basename(f), ctx.n(4, 6), ctx.n(8, 30))
     ctx.partial = []
-    ctx.assumptions = ['paths with a descendant (>) step: proved against the nodes-first form of the reference (eval_json_nodes) over a '
-                       'saturated rendering (executable hypothesis, checked by the driver); the values-directly form (eval_json) is '
-                       'proved equal for child/attribute paths and compared on every run for the others',
+    ctx.assumptions = ['paths with a descendant (>) step: proved over a saturated rendering (executable hypothesis, checked by the '
+                       'driver on every case: it answers "unsaturated" otherwise) with a fuel bound in the nesting depth of the rendering',
                        'the Coq reference eval_json reads the rendering Nested.render_nodes, whose agreement with NestedJsonRenderer is '
                        "C09's correspondence; here it is additionally compared with the implementation's answers directly"]
 
